@@ -171,6 +171,10 @@ mod math;
 mod op;
 mod token;
 
+/// Seams for deterministic simulation - compiled only with `--cfg geodesy_verif`
+#[cfg(geodesy_verif)]
+pub mod verif_seam;
+
 /// Some generic coordinates for test composition
 #[cfg(test)]
 mod test_data {
